@@ -593,3 +593,22 @@ def run_property(ctx, make_jobs, meta):
           % ({0: "OK", 1: "FAIL", 2: "UNDECIDED"}[rc], prop, ctx.tier, len(jobs), n_obl, n_dis, n_b_dis, n_b_obl,
              n_known, len(undecided), wall))
     return rc
+
+
+def inject_loop_contracts(ctx, relpath, rules, tag):
+    """Scratch copy of <repo>/<relpath> with loop-contract clauses inserted after anchored loop headers (CBMC reads loop contracts only from
+    the source text).  rules: [(anchor_regex matching the loop header up to and excluding its '{', clause_text)].  Every rule must fire exactly
+    once (else Undecided: the code moved and the contract has to be re-anchored - never a violation).  NOTHING is dropped or rewritten: the
+    copy differs from the repository file only by the inserted __CPROVER_* clauses.  Returns the directory to put FIRST on the include path."""
+    src = os.path.join(ctx.repo, relpath)
+    text = open(src).read()
+    for anchor, clause in rules:
+        ms = list(re.finditer(anchor, text))
+        if len(ms) != 1:
+            raise Undecided("loop-contract anchor %r matches %d times in %s (must be exactly 1)" % (anchor, len(ms), relpath))
+        m = ms[0]
+        text = text[:m.end()] + "\n" + clause + "\n" + text[m.end():]
+    d = os.path.dirname(ctx.path("inject", tag, "x"))
+    with open(os.path.join(d, os.path.basename(relpath)), "w") as f:
+        f.write(text)
+    return d
